@@ -133,6 +133,9 @@ Inductive opkind :=
 | KRsyncWrite (n_files : nat) (has_current has_old has_tmp : bool)
 | KRemovePublisher                           (* content change set, THEN access command, then the RRDP task *)
 | KCreatePublisher                           (* access command, then content change set *)
+| KUpdateSnapshots (pre cut : wal)           (* the snapshot update task: aggregate snapshots, then the change-set store's
+                                                snapshot update; [pre] / [cut]: snapshot revision and change sets of the
+                                                content store as read from the directory before the operation / right after the cut *)
 | KGeneric                                   (* other multi-store operations: commands predicted, the rest as observed *)
 | KIdle                                      (* nothing: a task that finds it is premature *)
 | KTask (inner : opkind).                    (* claim, the task's work, finish / reschedule / follow-up *)
@@ -142,6 +145,13 @@ Definition prims (steps : list cstep) : option (list shape) :=
 
 Definition is_rrdp_task (sh : shape) : bool :=
   match sh with ShTaskDel t | ShTaskPut t => fst t =? RRDP_UPDATE | _ => false end.
+
+(** The change-set store's part of a trace and its model (Crash.wal_snapshot_trace: snapshot FIRST, then one
+    removal per change set that was there). *)
+Definition wshape (m : wmut) : shape := match m with WSet _ => ShWal | WSnap _ => ShWalSnapshot | WDel _ => ShWalDelete end.
+Definition is_wal_shape (sh : shape) : bool := match sh with ShWal | ShWalSnapshot | ShWalDelete => true | _ => false end.
+(** snapshot.json of an aggregate (cas/<ca>, signers, pubd access, properties) *)
+Definition is_agg_snapshot (sh : shape) : bool := match sh with ShSnapshot _ | ShSigner | ShOther _ _ => true | _ => false end.
 
 Fixpoint kind_ok (k : opkind) (steps : list cstep) : bool :=
   match k with
@@ -168,6 +178,12 @@ Fixpoint kind_ok (k : opkind) (steps : list cstep) : bool :=
       | _ => false
       end
   | KCreatePublisher => match prims steps with Some [ShPubdCommand; ShWal] => true | _ => false end
+  | KUpdateSnapshots pre _ =>
+      match prims steps with
+      | Some l => shapes_eqb (filter is_wal_shape l) (map wshape (wal_snapshot_trace pre))
+                  && forallb (fun sh => is_wal_shape sh || is_agg_snapshot sh) l
+      | None => false
+      end
   | KGeneric => true
   | KIdle => match steps with [] => true | _ => false end
   | KTask inner =>
@@ -248,6 +264,28 @@ Definition b2n (b : bool) : N := if b then 1 else 0.
 Definition generic_fail (c : case) : bool :=
   match k_mode c, k_kind c with Fail, KGeneric => true | _, _ => false end.
 
+(** The stored state of the change-set store right after the cut against the model's. A failing write of an
+    aggregate's snapshot is logged and the task goes on (scheduler.rs:524-600): the change-set store's update
+    then runs in full; a failing write inside it ends it (wal.rs:401-412). The removals go in directory order:
+    compared are the snapshot's revision, the number of sets left and that no set appeared. *)
+Definition wal_offset (tr : list shape) : nat :=
+  (fix go (l : list shape) (i : nat) : nat := match l with [] => i | sh :: r => if is_wal_shape sh then i else go r (Datatypes.S i) end) tr 0%nat.
+Definition wal_muts_done (c : case) : nat :=
+  let off := wal_offset (k_trace c) in
+  match k_mode c with
+  | Crash => (k_cut c - off)%nat
+  | Fail => if (k_cut c <? off)%nat then (length (k_trace c) - off)%nat else (k_cut c - off)%nat
+  end.
+Definition wal_state_agrees (c : case) : bool :=
+  match k_kind c with
+  | KUpdateSnapshots pre cut =>
+      let m := wal_run pre (firstn (wal_muts_done c) (wal_snapshot_trace pre)) in
+      (w_snap cut =? w_snap m) && (length (w_sets cut) =? length (w_sets m))%nat
+      && forallb (fun x => existsb (N.eqb x) (w_sets pre)) (w_sets cut)
+      && (wal_load cut =? wal_load m)
+  | _ => true
+  end.
+
 Definition agrees (c : case) : bool :=
   match predict_full 0 (k_pend0 c) (k_run0 c) (k_steps c) with
   | None => false
@@ -255,7 +293,7 @@ Definition agrees (c : case) : bool :=
       let pre := firstn (k_cut c) tr in
       let seen := if in_post_save c sps then tr else pre in
       shapes_eqb tr (k_trace c) && kind_ok (k_kind c) (k_steps c)
-      && shapes_eqb pre (k_prefix c)
+      && shapes_eqb pre (k_prefix c) && wal_state_agrees c
       && (generic_fail c
           || (forallb (fun ca => count_cmds ca seen + b2n (healed c sps ca) + b2n (rejected_on_fail c sps ca) =? lookupN ca (k_new_cmds c)) ENTITIES
               && forallb (fun ca => writes_objs ca seen || healed c sps ca) (k_objs_changed c)))
@@ -275,8 +313,13 @@ Definition ack_ok (c : case) : bool :=
 Definition atomic_ok (c : case) : bool :=
   forallb (fun ca => (count_cmds ca (k_trace c) =? 0) || (0 <? lookupN ca (k_new_cmds c))) (k_objs_changed c).
 
+(** The change-set store after the cut still loads every acknowledged change set (Crash.wal_keeps_acknowledged
+    on the stored state that was read from the directory). *)
+Definition wal_ok (c : case) : bool :=
+  match k_kind c with KUpdateSnapshots pre cut => wal_load pre <=? wal_load cut | _ => true end.
+
 Definition c08_ok (c : case) : bool :=
-  k_loads c && ack_ok c && k_rp_ok c
+  k_loads c && ack_ok c && wal_ok c && k_rp_ok c
   && ((k_converged c && k_tasks_kept c) || (negb (k_strict c) && negb (k_candidate c =? 0)))
   && (negb (k_strict_atomic c) || atomic_ok c).
 
@@ -303,3 +346,10 @@ Example predict_child_update :
   predict [(SYNC_PARENT, 2)] [] [CCmd 1 [("ChildUpdatedResources"%string, 2)]]
   = Some [ShObjects 1; ShCommand 1; ShTaskDel (SYNC_PARENT, 2); ShTaskPut (SYNC_PARENT, 2)].
 Proof. vm_compute. reflexivity. Qed.
+
+Example kind_ok_update_snapshots :
+  kind_ok (KUpdateSnapshots (mkWal 15 [17; 15; 16]) (mkWal 18 [16]))
+    (map CPrim [ShSnapshot 99; ShSnapshot 99; ShSigner; ShOther 3 0; ShWalSnapshot; ShWalDelete; ShWalDelete; ShWalDelete]) = true
+  /\ kind_ok (KUpdateSnapshots (mkWal 15 [17; 15; 16]) (mkWal 15 [16]))
+    (map CPrim [ShSnapshot 99; ShWalDelete; ShWalDelete; ShWalDelete; ShWalSnapshot]) = false.
+Proof. vm_compute. split; reflexivity. Qed.
